@@ -1,11 +1,162 @@
+// Package c18 simulates the name-service servers and clients (nbtns.Server,
+// nbtns.UDPServer, nbtns.TCPServer, llmnr.Server, llmnr.Client) on simulated
+// hosts: concurrent clients, UDP loss/duplication/reordering, TCP
+// segmentation and aborts, stalled tasks, clock jumps over deadlines, and
+// Stop/Close at a chosen moment. Oracles: request isolation (every response
+// belongs to exactly one request of that client and carries its answer),
+// RFC 1002 opcode routing (all 16 opcodes), LLMNR client id matching, prompt
+// and complete shutdown, and the race detector.
 package c18
 
-import "verif.local/harness/hx"
+import (
+	"fmt"
+	"sort"
 
-var ProbeNames = map[int]string{}
+	"verif.local/harness/hx"
+	simnet "verif.local/sim/net"
+	"verif.local/sim/rt"
+)
 
-func Run(seed uint64, index int64, o hx.Opts) *hx.Result {
-	return &hx.Result{Property: "c18", Index: index, Seed: seed, Discarded: "not implemented"}
+const (
+	PTwoHandlersAlive = rt.PUser + iota
+	PStopWhileReadBlocked
+	PStopWhileHandlerAlive
+	PStopWhileTCPConn
+	PStopBeforeListen
+	PStopTwice
+	PRespAfterTimeout
+	PLoopRanAhead
+	PTCPAbortMidFrame
+	PTCPPipelined
+	PStrayDelivered
+	PCtxCancelled
+	PClientTimeout
+	PBigRequest
+	PSocketLeftOpen
+	PIDCollision
+	PChallenge
+)
+
+var ProbeNames = map[int]string{
+	PTwoHandlersAlive:      "two_handler_tasks_alive_at_once",
+	PStopWhileReadBlocked:  "stop_while_receive_loop_blocked_in_read",
+	PStopWhileHandlerAlive: "stop_while_handler_task_alive",
+	PStopWhileTCPConn:      "stop_while_tcp_connection_open",
+	PStopBeforeListen:      "close_called_at_time_zero_concurrently_with_listen_and_serve",
+	PStopTwice:             "close_called_twice",
+	PRespAfterTimeout:      "response_arrived_after_query_timed_out",
+	PLoopRanAhead:          "receive_loop_read_again_while_previous_handler_had_not_finished",
+	PTCPAbortMidFrame:      "tcp_client_aborted_mid_frame",
+	PTCPPipelined:          "tcp_requests_pipelined",
+	PStrayDelivered:        "stray_datagram_sent_to_client",
+	PCtxCancelled:          "query_context_cancelled",
+	PClientTimeout:         "query_timed_out",
+	PBigRequest:            "request_near_or_over_server_buffer_size",
+	PSocketLeftOpen:        "sut_socket_left_open_after_stop",
+	PIDCollision:           "llmnr_id_collision_run_discarded",
+	PChallenge:             "name_challenge_completed",
 }
 
-func EnumSize() int64 { return 0 }
+var scenarioNames = [...]string{"nbns-server", "nbns-udp+tcp", "llmnr-server", "llmnr-client", "llmnr-client+server", "nbns-challenger"}
+
+// Run executes one simulated run.
+func Run(seed uint64, index int64, o hx.Opts) *hx.Result {
+	res := &hx.Result{Property: "C18", Index: index, Seed: seed, Extra: map[string]int64{}}
+	en := hx.AllKinds()
+	cfg := rt.Config{Seed: seed, Replay: o.Replay, Verbose: o.Verbose, NPoints: o.NPoints, Bias: hx.Swarm(seed, en), MaxSteps: 2_000_000}
+	if o.Scenario == "openum" {
+		for k := range cfg.Bias {
+			cfg.Bias[k] = 0
+		}
+	}
+	w := rt.NewWorld(cfg)
+	var bad *hx.Violation
+	v := w.Run(func() {
+		if o.Scenario == "openum" {
+			res.Scenario = "openum"
+			w.Quiet = true
+			desc, b := runOpcodeProbe(index)
+			bad = b
+			res.Sample = desc
+			res.NonTrivial = true
+			return
+		}
+		sc := hx.G(len(scenarioNames))
+		if v, ok := o.Param["sc"]; ok {
+			sc = int(v)
+		}
+		res.Scenario = scenarioNames[sc]
+		switch sc {
+		case 0:
+			bad = runNBRandom(w, res, 1)
+		case 1:
+			bad = runNBRandom(w, res, 2)
+		case 2:
+			bad = runLLMNR(w, res, true, false)
+		case 3:
+			bad = runLLMNR(w, res, false, true)
+		case 4:
+			bad = runLLMNR(w, res, true, true)
+		case 5:
+			bad = runChallenger(w, res)
+		}
+	})
+	res.SimNs = w.SimNow()
+	if v == nil && bad != nil {
+		res.Violation = bad
+	}
+	hx.Finish(res, w, v, false)
+	return res
+}
+
+// shutdownCheck: after every Stop/Close has been called and returned, all SUT tasks must be gone within the bound.
+func shutdownCheck(system string, boundNs int64) *hx.Violation {
+	deadline := rt.Now() + boundNs
+	for {
+		live := rt.LiveSUTTasks()
+		if len(live) == 0 {
+			return nil
+		}
+		if rt.Now() >= deadline {
+			t := live[0]
+			var all []string
+			for _, l := range live {
+				all = append(all, fmt.Sprintf("%s: %s", l.Site, l.StateString()))
+			}
+			sort.Strings(all)
+			return &hx.Violation{Class: "leak", Key: system + "/" + t.Site,
+				Msg: fmt.Sprintf("%d SUT task(s) still alive %.1f simulated seconds after Stop/Close returned:\n  %s", len(live), float64(boundNs)/1e9, joinStr(all, "\n  "))}
+		}
+		rt.SleepUntil(rt.Now() + 250e6)
+	}
+}
+
+func joinStr(s []string, sep string) string {
+	out := ""
+	for i, x := range s {
+		if i > 0 {
+			out += sep
+		}
+		out += x
+	}
+	return out
+}
+
+// joinWithin waits for t with a simulated-time bound.
+//
+// While faults are still being injected the scheduler may let time pass although tasks are runnable
+// (stalled-task fault), so an expired bound proves nothing there: on expiry the run is switched to the
+// quiet phase (time advances only when everybody is blocked) and the task gets the full bound again.
+func joinWithin(t *rt.Task, boundNs int64) bool {
+	if rt.Join(t, rt.Now()+boundNs) {
+		return true
+	}
+	rt.W.Quiet = true
+	return rt.Join(t, rt.Now()+boundNs)
+}
+
+func noteSockets() {
+	if _, open := simnet.OpenSockets(); open > 0 {
+		rt.Probe(PSocketLeftOpen)
+	}
+}
